@@ -18,8 +18,49 @@ Proof. intros H. unfold to_milli, USCALE. apply Z.quot_div_nonneg; lia. Qed.
 
 Lemma sys_raw_nonneg i : 0 <= sys_raw i.
 Proof. unfold sys_raw. lia. Qed.
+Lemma kube_reserved_nonneg i : 0 <= kube_reserved i.
+Proof. unfold kube_reserved. lia. Qed.
+Lemma kube_reserved_eq i : kube_reserved i = kubelet_reservation i.
+Proof. unfold kube_reserved, kubelet_reservation. destruct (b_alloc i); f_equal; lia. Qed.
+Lemma max_entry_max k o : max_entry k o = Z.max k (match o with Some v => v | None => k end).
+Proof.
+  unfold max_entry. destruct o as [v|]; [|lia].
+  destruct (k <=? v) eqn:E; [apply Z.leb_le in E|apply Z.leb_gt in E]; lia.
+Qed.
+
+(* the code's reservation (presence-aware maximum over resource lists, reservedCPUs overriding
+   resources.cpu, fail-open on errors) is the declarative one of the specification *)
+Lemma reservation_spec_eq i : reservation_spec i = node_reserved i.
+Proof.
+  unfold reservation_spec, node_reserved, anno_declared, anno_reserved, anno_resources.
+  rewrite <- kube_reserved_eq. pose proof (kube_reserved_nonneg i) as Hk.
+  destruct (an_state (b_anno i) =? 0) eqn:E0.
+  - apply Z.eqb_eq in E0. rewrite E0. cbn. lia.
+  - rewrite max_entry_max.
+    destruct (an_state (b_anno i) =? 3); cbn [negb]; [|lia].
+    destruct (an_cpus (b_anno i)) as [|c t].
+    + destruct (an_rescpu (b_anno i)) as [u|]; cbn [option_map]; lia.
+    + destruct (an_cpus_ok (b_anno i)); lia.
+Qed.
+
 Lemma node_reserved_nonneg i : 0 <= node_reserved i.
-Proof. unfold node_reserved. lia. Qed.
+Proof. rewrite <- reservation_spec_eq. unfold reservation_spec, kubelet_reservation. lia. Qed.
+
+(* the applyPolicy of the annotation plays no part *)
+Lemma node_reserved_policy p i :
+  node_reserved (mkB (b_cap i) (b_alloc i) (with_policy p (b_anno i)) (b_thr i) (b_min i) (b_node i)
+                     (b_pods i) (b_hosts i)) = node_reserved i.
+Proof. reflexivity. Qed.
+
+(* it is at least what the kubelet keeps back and at least one core per listed reserved cpu *)
+Lemma node_reserved_ge_kubelet i : Z.max (b_cap i - match b_alloc i with Some a => a | None => 0 end) 0 <= node_reserved i.
+Proof. rewrite <- reservation_spec_eq. unfold reservation_spec, kubelet_reservation. lia. Qed.
+Lemma node_reserved_ge_cpus i : an_state (b_anno i) = 3 -> an_cpus_ok (b_anno i) = true ->
+  an_cpus (b_anno i) <> [] -> 1000 * dedup_len (an_cpus (b_anno i)) <= node_reserved i.
+Proof.
+  intros Hs Hok Hne. rewrite <- reservation_spec_eq. unfold reservation_spec, anno_declared.
+  rewrite Hs, Hok. cbn. destruct (an_cpus (b_anno i)); [contradiction|lia].
+Qed.
 
 Lemma apply_min_max cap mn b :
   apply_min cap mn b = match mn with None => b | Some mp => Z.max b (Z.quot (cap * mp) 100) end.
@@ -49,7 +90,8 @@ Qed.
 
 Lemma budget_formula i : rt_ok i = true -> budget_holds i (budget i).
 Proof.
-  unfold budget_holds, rt_ok, rt_exact, budget_spec, budget, budget_spec_with. intros Hok.
+  unfold budget_holds, rt_ok, rt_exact, budget_spec, budget, budget_spec_with.
+  rewrite !reservation_spec_eq. intros Hok.
   apply andb_true_iff in Hok. destruct Hok as [H1 H2]. apply Z.leb_le in H1. apply Z.leb_le in H2.
   rewrite apply_min_max.
   destruct (sys_milli_cases i) as [[Ha [Hb Hc]]|[Ha [Hb Hc]]]; rewrite Hb.
@@ -65,7 +107,7 @@ Qed.
 Lemma budget_formula_exact i : rt_exact i = true -> budget i = budget_spec i.
 Proof.
   intros He. assert (Hok : rt_ok i = true).
-  { unfold rt_ok, rt_exact in *. apply Z.eqb_eq in He. rewrite He.
+  { unfold rt_ok, rt_exact in *. rewrite !reservation_spec_eq in *. apply Z.eqb_eq in He. rewrite He.
     apply andb_true_iff. split; apply Z.leb_le; lia. }
   destruct (budget_formula i Hok) as [H|[H _]]; [exact H | rewrite He in H; discriminate].
 Qed.
@@ -73,7 +115,7 @@ Qed.
 (* the system term is never below the reservation (minus the float round-trip loss) *)
 Lemma sys_at_least_reserved i : rt_ok i = true -> node_reserved i - 1 <= sys_milli i.
 Proof.
-  unfold rt_ok. intros Hok. apply andb_true_iff in Hok. destruct Hok as [H1 _]. apply Z.leb_le in H1.
+  unfold rt_ok. rewrite !reservation_spec_eq. intros Hok. apply andb_true_iff in Hok. destruct Hok as [H1 _]. apply Z.leb_le in H1.
   destruct (sys_milli_cases i) as [[_ [Hb _]]|[_ [Hb Hc]]]; rewrite Hb; lia.
 Qed.
 
@@ -102,29 +144,32 @@ Proof.
     cbn [map]; rewrite ?sumZ_cons; lia.
 Qed.
 
-Lemma sys_milli_mono i i' : node_reserved i = node_reserved i' ->
+Lemma sys_milli_mono i i' : node_reserved i <= node_reserved i' ->
   rt_milli (node_reserved i) <= node_reserved i ->
+  node_reserved i' - 1 <= rt_milli (node_reserved i') ->
   sys_raw i <= sys_raw i' -> sys_milli i <= sys_milli i'.
 Proof.
-  intros Hr Hrt Hle.
+  intros Hr Hrt Hrt' Hle. pose proof (to_milli_mono _ _ Hle) as Hm.
   destruct (sys_milli_cases i) as [[Ha [Hb Hc]]|[Ha [Hb Hc]]];
   destruct (sys_milli_cases i') as [[Ha' [Hb' Hc']]|[Ha' [Hb' Hc']]]; rewrite Hb, Hb'.
-  - rewrite Hr. lia.
-  - rewrite <- Hr in Hc'. lia.
-  - rewrite <- Hr in Ha'. lia.
-  - apply to_milli_mono. exact Hle.
+  - destruct (Z.eq_dec (node_reserved i) (node_reserved i')) as [E|E]; [rewrite E; lia|lia].
+  - lia.
+  - lia.
+  - exact Hm.
 Qed.
 
-(* the budget does not grow when any non-BE consumption grows *)
-Lemma budget_antitone i i' : rt_milli (node_reserved i) <= node_reserved i ->
+(* the budget does not grow when any non-BE consumption (or the node reservation) grows *)
+Lemma budget_antitone i i' : rt_ok i = true -> rt_ok i' = true ->
   grows i i' -> budget i' <= budget i.
 Proof.
-  intros Hrt [H1 [H2 [H3 [H4 [H5 [H6 [H7 H8]]]]]]]. unfold budget.
-  assert (Hr : node_reserved i = node_reserved i') by (unfold node_reserved; rewrite H1, H2, H3; reflexivity).
+  unfold rt_ok. rewrite !reservation_spec_eq. intros Hok Hok'.
+  apply andb_true_iff in Hok. destruct Hok as [_ Hrt]. apply Z.leb_le in Hrt.
+  apply andb_true_iff in Hok'. destruct Hok' as [Hrt' _]. apply Z.leb_le in Hrt'.
+  intros [H1 [H3 [H4 [H5 [H6 [H7 H8]]]]]]. rewrite !reservation_spec_eq in H3. unfold budget.
   rewrite <- H1, <- H4, <- H5. apply apply_min_mono.
   pose proof (to_milli_mono _ _ (pods_nonbe_mono _ _ H6)).
   pose proof (to_milli_mono _ _ (hosts_nonbe_mono _ _ H7)).
-  pose proof (sys_milli_mono i i' Hr Hrt H8). lia.
+  pose proof (sys_milli_mono i i' H3 Hrt Hrt' H8). lia.
 Qed.
 
 (* antitone in the three consumption figures themselves *)
@@ -183,16 +228,32 @@ Proof.
   destruct (kind =? 1) eqn:E1; [|destruct (kind =? 2) eqn:E2; [|destruct (kind =? 3) eqn:E3]].
   - destruct (bump_pod_spec d Hd (b_pods i) (Z.to_nat idx)) as [H1 H2].
     unfold grows, with_node_pods_hosts, sys_raw. cbn [b_cap b_alloc b_anno b_thr b_min b_node b_pods b_hosts].
-    repeat (split; [reflexivity|]). split; [exact H1|].
+    split; [reflexivity|]. split; [apply Z.le_refl|]. repeat (split; [reflexivity|]). split; [exact H1|].
     split; [apply Forall2_refl; apply happ_le_refl|]. rewrite H2. lia.
   - destruct (bump_host_spec d Hd (b_hosts i) (Z.to_nat idx)) as [H1 H2].
     unfold grows, with_node_pods_hosts, sys_raw. cbn [b_cap b_alloc b_anno b_thr b_min b_node b_pods b_hosts].
-    repeat (split; [reflexivity|]). split; [apply Forall2_refl; apply pod_le_refl|].
+    split; [reflexivity|]. split; [apply Z.le_refl|]. repeat (split; [reflexivity|]). split; [apply Forall2_refl; apply pod_le_refl|].
     split; [exact H1|]. rewrite H2. lia.
   - unfold grows, with_node_pods_hosts, sys_raw. cbn [b_cap b_alloc b_anno b_thr b_min b_node b_pods b_hosts].
-    repeat (split; [reflexivity|]). split; [apply Forall2_refl; apply pod_le_refl|].
+    split; [reflexivity|]. split; [apply Z.le_refl|]. repeat (split; [reflexivity|]). split; [apply Forall2_refl; apply pod_le_refl|].
     split; [apply Forall2_refl; apply happ_le_refl|]. lia.
   - apply Z.eqb_neq in E1. apply Z.eqb_neq in E2. apply Z.eqb_neq in E3. lia.
+Qed.
+
+(* perturbation 5: only the applyPolicy of the reservation annotation changes: the same budget *)
+Lemma budget_policy_irrelevant idx d i : budget (perturb 5 idx d i) = budget i.
+Proof. reflexivity. Qed.
+
+(* perturbation 6: the kubelet keeps d more back: an instance of [grows] *)
+Lemma perturb6_grows idx d i : 0 <= d -> grows i (perturb 6 idx d i).
+Proof.
+  intros Hd. unfold grows, perturb. cbn [Z.eqb Pos.eqb].
+  cbn [b_cap b_alloc b_anno b_thr b_min b_node b_pods b_hosts].
+  split; [reflexivity|]. split.
+  - unfold reservation_spec, kubelet_reservation. cbn [b_cap b_alloc b_anno].
+    destruct (b_alloc i) as [a|]; cbn [option_map]; lia.
+  - repeat (split; [reflexivity|]). split; [apply Forall2_refl; apply pod_le_refl|].
+    split; [apply Forall2_refl; apply happ_le_refl|]. unfold sys_raw. cbn [b_node b_pods b_hosts]. lia.
 Qed.
 
 (* ---------------------------------------------------------------- quota *)
@@ -278,7 +339,7 @@ Lemma budget_slack idx d i : rt_ok i = true -> 0 <= d ->
   budget (perturb 4 idx d i) <= budget i + 1.
 Proof.
   intros Hok Hd Hnn Hnb.
-  unfold rt_ok in Hok. apply andb_true_iff in Hok. destruct Hok as [Hr1 Hr2].
+  unfold rt_ok in Hok. rewrite !reservation_spec_eq in Hok. apply andb_true_iff in Hok. destruct Hok as [Hr1 Hr2].
   apply Z.leb_le in Hr1. apply Z.leb_le in Hr2.
   set (i' := perturb 4 idx d i).
   assert (Hres : node_reserved i' = node_reserved i) by apply node_reserved_perturb_4.
